@@ -41,6 +41,15 @@ def fasta_case(entries, chars):
         return f"read {got}, wrote {exp}"
     if list(f.items()) != exp:
         return f"in-memory view {list(f.items())} != {exp}"
+    # the streaming API gives the same entries / the same text as the file object
+    text = text_of(f)
+    it = list(fasta.FastaFile.read_iter(io.StringIO(text)))
+    if it != exp:
+        return f"read_iter gives {it}, wrote {exp}"
+    out = io.StringIO()
+    fasta.FastaFile.write_iter(out, iter(exp), chars_per_line=chars)
+    if out.getvalue() != text:
+        return f"write_iter writes {out.getvalue()!r}, the file object writes {text!r}"
     return None
 
 
@@ -91,6 +100,15 @@ def fastq_case(entries, offset, chars):
     inm = [(h, str(s), q.tolist()) for h, (s, q) in f.items()]
     if inm != exp:
         return f"in-memory view {inm} != {exp}"
+    text = text_of(f)
+    it = [(h, str(s), np.asarray(q).tolist()) for h, (s, q) in fastq.FastqFile.read_iter(io.StringIO(text), offset=offset)]
+    if it != exp:
+        return f"read_iter gives {it}, wrote {exp}"
+    out = io.StringIO()
+    fastq.FastqFile.write_iter(out, ((h, (s, np.array(q))) for h, s, q in entries), offset=offset, chars_per_line=chars)      # (sequence as string: documented)
+    back = [(h, str(s), q.tolist()) for h, (s, q) in fastq.FastqFile.read(io.StringIO(out.getvalue()), offset=offset).items()]
+    if back != exp:
+        return f"what write_iter wrote reads back as {back}, wrote {exp}"
     return None
 
 
@@ -110,6 +128,75 @@ for offname, off in OFFSETS.items():
             ent = [("r1", "ACGT", q), ("r2 d", "TTGA", quals[1])]
             R.check("FASTQ round trip", f"fastq {offname} wrap {chars}", {"entries": ent, "offset": offname, "chars_per_line": chars},
                     lambda ent=ent, offname=offname, chars=chars: fastq_case(ent, offname, chars))
+
+
+def fasta_objects(items, as_rna, typed):
+    """the sequence-object layer of FASTA: set_sequence(s) -> text -> get_sequence(s) returns equal objects of the same
+    type, in order; `as_rna` writes U for T in NUCLEOTIDE sequences only and both letters read back as T"""
+    f = fasta.FastaFile()
+    d = {f"h{i}": (seq.ProteinSequence(t) if kind == "prot" else NucleotideSequence(t)) for i, (kind, t) in enumerate(items)}
+    if len(d) == 1:
+        fasta.set_sequence(f, list(d.values())[0], header="h0", as_rna=as_rna)
+    else:
+        fasta.set_sequences(f, d, as_rna=as_rna)
+    text = text_of(f)
+    for (kind, t), body in zip(items, [b for b in text.replace("\n", "").split(">")[1:]]):
+        want = t.replace("T", "U") if (as_rna and kind == "nuc") else t
+        if not body.endswith(want):
+            return f"{kind} sequence {t!r} written as {body!r} (as_rna={as_rna})"
+    g = fasta.FastaFile.read(io.StringIO(text))
+    with warnings.catch_warnings():
+        warnings.simplefilter("ignore")
+        if typed:
+            back = {h: fasta.get_sequence(g, header=h, seq_type=type(v)) for h, v in d.items()}
+        else:
+            back = fasta.get_sequences(g)
+    if list(back) != list(d):
+        return f"headers {list(back)} != {list(d)}"
+    for h, v in d.items():
+        b = back[h]
+        # (without a requested type a protein made only of nucleotide letters is read as nucleotide: accepted)
+        if typed or type(b) is type(v):
+            if type(b) is not type(v) or str(b) != str(v):
+                return f"{type(v).__name__} {str(v)!r} read back as {type(b).__name__} {str(b)!r} (as_rna={as_rna})"
+        elif str(b) != str(v):
+            return f"{type(v).__name__} {str(v)!r} read back as {type(b).__name__} {str(b)!r} (as_rna={as_rna})"
+    return None
+
+
+import warnings
+FO = [[("nuc", "ACGTTTGA")], [("nuc", "ACGTNNRY")], [("prot", "MTLTKTEW*")], [("prot", "MKV")], [("nuc", "TTTT"), ("prot", "MTLTKTEW")],
+      [("prot", "TTAGC"), ("nuc", "ACGT")], [("prot", "ACDEFGHIKLMNPQRSTVWY"), ("nuc", "T"), ("prot", "T")]]
+for items in FO:
+    for as_rna in (False, True):
+        for typed in (False, True):
+            R.check("FASTA round trip", "fasta sequence objects", {"items": items, "as_rna": as_rna, "seq_type given": typed},
+                    lambda items=items, as_rna=as_rna, typed=typed: fasta_objects(items, as_rna, typed))
+
+
+def fastq_objects(text, scores, as_rna, offset):
+    f = fastq.FastqFile(offset=offset)
+    s0 = NucleotideSequence(text)
+    fastq.set_sequence(f, s0, np.array(scores), header="r1", as_rna=as_rna)
+    fastq.set_sequences(f, {"r2": (s0.reverse(), np.array(scores[::-1]))}, as_rna=as_rna)
+    body = text_of(f)
+    if (text.replace("T", "U") if as_rna else text) not in body:
+        return f"sequence {text!r} not written as expected (as_rna={as_rna}): {body!r}"
+    g = fastq.FastqFile.read(io.StringIO(body), offset=offset)
+    s1, q1 = fastq.get_sequence(g, "r1")
+    allq = fastq.get_sequences(g)
+    if str(s1) != text or q1.tolist() != list(scores) or type(s1) is not NucleotideSequence:
+        return f"get_sequence: {str(s1)!r} {q1.tolist()}"
+    if list(allq) != ["r1", "r2"] or str(allq["r2"][0]) != text[::-1] or allq["r2"][1].tolist() != list(scores[::-1]):
+        return f"get_sequences: {[(h, str(s), q.tolist()) for h, (s, q) in allq.items()]}"
+    return None
+
+
+for text, scores in (("ACGT", [0, 10, 20, 40]), ("TTTTNACG", [1, 2, 3, 4, 5, 6, 7, 8]), ("T", [31])):
+    for as_rna in (False, True):
+        for offset in ("Sanger", "Illumina-1.3"):
+            R.check("FASTQ round trip", "fastq sequence objects", {"sequence": text, "scores": scores, "as_rna": as_rna, "offset": offset},
+                    lambda text=text, scores=scores, as_rna=as_rna, offset=offset: fastq_objects(text, scores, as_rna, offset))
 
 
 # ------------------------------------------------------------------ GenBank
